@@ -9,7 +9,7 @@
      * concrete refutations of the parts that are false (with the classifier of the known finding);
      * the full-strength statement as a plain definition, so that the target stays visible.
    Pinned statements only: each theorem is closed by [exact] of a lemma proved in Proofs/. *)
-From VV.M1 Require Import Diff Validate Oracles KahnP CreateOnlyP CreateDropP.
+From VV.M1 Require Import Diff Validate Oracles Known Hyp06 KahnP CreateOnlyP CreateDropP AlterP.
 From Coq Require Import Permutation.
 
 (* ---------- the full-strength target (a definition, NOT a claim: it is refuted below) ---------- *)
@@ -238,6 +238,28 @@ Check C06_core_partial2 : forall B T acts (rank : string -> nat),
   (forall a, In a acts -> match a with CreateTable _ _ _ => true | _ => false end = true \/ is_delete_table a = true) /\
   plan_stepwise_ok B T = true.
 
+(* ---------- the whole property on the sub-class "common tables are altered by change-class groups" ---------- *)
+(* PARTIAL: c06_change (Corr/Hyp06.v, a boolean on (baseline, models)) asks: the baseline is a consistent
+   normalisation fix-point with distinct table names; the loader accepts the models; the planner returns a
+   plan; every common table has distinct column names, no duplicated constraint, and a group of the C01
+   "change" class (ModifyColumn*, AddColumn of plain columns, AddConstraint, RemoveConstraint of purely
+   table-level constraints, DeleteColumn of plain columns no constraint mentions) whose AddConstraints find
+   their columns; no surviving table references a dropped one; the dropped tables have no FK cycle; a dropped
+   column is not referenced by a remaining foreign key; every model foreign key towards a baseline table names
+   columns that table already has, and only new tables point at new tables.
+   Missing for C06_full: columns with inline declarations added/dropped, constraints backed by inline
+   declarations removed, and the refuted classes (D1, D2, reference added later, duplicate constraint,
+   drop cycle, inherited inconsistent baseline). *)
+Theorem C06_core_partial3 : forall B T, c06_change B T = true -> plan_stepwise_ok B T = true.
+Proof. exact c06_change_sound. Qed.
+Print Assumptions C06_core_partial3.
+Check C06_core_partial3 : forall B T, c06_change B T = true -> plan_stepwise_ok B T = true.
+
+Theorem C06_core_partial3_cases : forall c, hyp_C06_change c = true -> model_stepwise_ok c = true.
+Proof. exact hyp_C06_change_sound. Qed.
+Print Assumptions C06_core_partial3_cases.
+Check C06_core_partial3_cases : forall c, hyp_C06_change c = true -> model_stepwise_ok c = true.
+
 (* ---------- refutations (R): the planner really emits these plans ---------- *)
 (* D2: DeleteTable is emitted before the RemoveConstraint of a surviving table's FK to it *)
 Theorem C06_delete_before_remove_fk_refuted :
@@ -354,3 +376,11 @@ Example C06_core_partial2_nonvacuous :
                 created_tables acts = ["post"] /\ map delete_name (filter is_delete_table acts) = ["c"; "b"]) /\
   plan_stepwise_ok w_cd_B w_cd_T = true.
 Proof. exact CreateDropP.C06_core_partial2_nonvacuous. Qed.
+
+(* one table created, one dropped, a plain column and an index dropped, a column retyped / made NOT NULL /
+   given a default, a plain column added together with a unique constraint on it: 9 actions *)
+Example C06_core_partial3_nonvacuous :
+  c06_change w_alt_B w_alt_T = true /\
+  (exists acts, diff_actions w_alt_B w_alt_T = Ok acts /\ List.length acts = 9) /\
+  plan_stepwise_ok w_alt_B w_alt_T = true.
+Proof. exact AlterP.C06_core_partial3_nonvacuous. Qed.
